@@ -148,9 +148,42 @@ def _extras(pp):
     ]
 
 
+def _comments(pp):
+    """comments and trailing comments on values whose printers are used for the first time by two threads at once: printers with and
+    without a trailing_comment parameter, registered directly, by name (pending) and bundled"""
+    from prettyprinter import pretty_call
+
+    class Plain2:
+        def __init__(self, x):
+            self.x = x
+
+    class LazyC:
+        def __init__(self, x):
+            self.x = x
+
+    @pp.register_pretty(Plain2)
+    def p_plain2(v, ctx):
+        return pretty_call(ctx, 'Plain2', v.x)
+
+    @pp.register_pretty(LazyC.__module__ + '.' + LazyC.__qualname__)
+    def p_lazyc(v, ctx, trailing_comment=None):
+        return pretty_call(ctx, 'LazyC', v.x)
+
+    return [
+        pp.trailing_comment([1, 2], 'tc list'),
+        pp.trailing_comment({'a': 1}, 'tc dict'),
+        pp.trailing_comment(Plain2(5), 'tc direct'),
+        pp.trailing_comment(LazyC(1), 'tc lazy'),
+        pp.trailing_comment(collections.OrderedDict([(1, 2)]), 'tc od'),
+        [pp.comment(1, 'c'), pp.comment(Plain2(2), 'on a value')],
+        pp.trailing_comment((1, [2]), 'tc tuple'),
+    ]
+
+
 def scenarios():
     return [
         ('core', _core, [{}, {'width': 12}]),
+        ('comments', _comments, [{}]),
         ('stdlib', _stdlib, [{}]),
         ('extras', _extras, [{}, {'width': 16}]),
     ]
